@@ -38,6 +38,7 @@ ALL_SWITCHES = ["removalOverwrite", "staleRemovalOnDespawn", "noLostDespawnHidde
 MONITOR_PROPS = {
     "C01": ["C01"], "panic": ["C01", "C09"], "C02": ["C02"], "C02mono": ["C02"],
     "C03": ["C03"], "C03mono": ["C03"], "C08data": ["C08"], "C08query": ["C08"], "C11rest": ["C11"],
+    "C11must": ["C11", "C01", "C02"],
     "C10atomic": ["C10"], "C10size": ["C10"], "C16": ["C16"], "C01parent": ["C01", "C03"],
     "C04stamp": ["C04"], "C04delivery": ["C04"],
     "C05recipients": ["C05"], "C05delivery": ["C05"], "C05complete": ["C05"], "C05server": ["C05"],
